@@ -92,6 +92,19 @@ def programs(r, tier):
     progs.append('x = 1e999 + 1j\ny = 1e999 * 1j\nz = (1e999 - 1e999) * 2\n')
     # names next to literals must never be evaluated
     progs.append("import os\nx = 1 + os.getpid() + 2 * 3\ny = 'a' + str(1 + 1)\nz = len('abc') + 1\nw = (1).__class__ + 2\n")
+    # a literal next to ANY non-literal operand (every expression kind, also under unary operators, nested, on either side) must not be evaluated
+    nonlit = ['v', 'len([])', "open('/dev/null').close()", "__import__('os').getpid()", 'v.real', 'v[0]', '-len([])', '+len([])', '~len([])', 'not len([])', '- -len([])', '-v', '-(v)', '-v.real',
+              '(lambda: 1)()', "f'{v}'", '[i for i in ()]', '(w := 3)', '(1 if v else 2)', "'a'.join(())", '(1).__class__', '-open("/dev/null").fileno()', '-(1).real', '-1 .real', '-True.real', '(-1).real',
+              '-(2, 3)[0]', '-[1][0]', "-{'k': 1}['k']", '-abs(-1)', '-int("1")', '-(yield)' if False else '-id(0)', '-1j.imag.real', '- - -len("a")']
+    ops12 = ['+', '-', '*', '/', '//', '%', '**', '<<', '>>', '&', '|', '^', '@']
+    lines = []
+    k = 0
+    for e in nonlit:
+        for op in (ops12 if tier != 'quick' else [ops12[(k + j) % len(ops12)] for j in range(4)]):
+            k += 1
+            lines += ['a%d = %s %s 2' % (k, e, op), 'b%d = 2 %s %s' % (k, op, e), 'c%d = (%s %s 2) %s 3' % (k, e, op, op), 'd%d = -1 %s %s' % (k, op, e), 'e%d = %s %s -1' % (k, e, op)]
+    for j in range(0, len(lines), 30):
+        progs.append('v = 1\n' + '\n'.join(lines[j:j + 30]) + '\n')
     progs += fstr.sources(r, 100 if tier == 'quick' else 1500)
     return [p for p in progs if p != 'v = 2\n']
 
